@@ -92,10 +92,17 @@ def _transform_mp_worker(queue, done_event, pio_in, pio_out, make_buf, do_one):
     buf = make_buf()
 
     while True:
+        # Sample the shutdown flag *before* polling the queue. The flag is only
+        # raised once every item has been flushed into the queue, so if it was
+        # already up and the queue then turns out to be empty, nothing more can
+        # arrive. Testing it only after the timeout could miss items enqueued
+        # between the timeout and the test.
+        done = done_event.is_set()
+
         try:
             pos = queue.get(True, timeout=1)
         except Empty:
-            if done_event.is_set():
+            if done:
                 break
             continue
 
